@@ -426,6 +426,11 @@ pub fn run(p: &Params, which: Which) -> Report {
         &mut rep,
         &|i, rep| {
             let mut r = pp.rng(i);
+            if which == Which::C02 && i % 2 == 1 {
+                // part 3: channel-cut non-interference on executions
+                crate::mon::c02x::run_cases(&pp, i, rep);
+                return;
+            }
             let opts = crate::mon::c03::world_options(&mut r);
             let w = gen_dp_world(&mut r, &opts);
             for k in 0..4 {
